@@ -67,11 +67,15 @@ end Var
 /-- insertion sort by a strict order given as a Bool function; stable (like Python's `sorted`) -/
 def insertBy {α} (lt : α → α → Bool) (x : α) : List α → List α
   | [] => [x]
-  | y :: ys => if lt x y then x :: y :: ys else y :: insertBy lt x ys
+  | y :: ys => if lt y x then y :: insertBy lt x ys else x :: y :: ys
 
 def sortBy {α} (lt : α → α → Bool) (l : List α) : List α := l.foldr (insertBy lt) []
--- note: `foldr` inserts the last element first, and `insertBy` places `x` after equal keys only when it
--- was later in the input, so ties keep input order (stability)
+-- note: `foldr` inserts the last element first; `insertBy lt x` places the (earlier) element `x` in front of
+-- the first `y` that is not strictly smaller, i.e. in front of later elements with an equal key, so ties keep
+-- input order (stability, like Python's `sorted`).  `example` below pins this down.
+
+example : sortBy (fun (a b : Nat × Nat) => a.1 < b.1) [(1, 0), (0, 9), (1, 1), (0, 8), (1, 2)]
+    = [(0, 9), (0, 8), (1, 0), (1, 1), (1, 2)] := by decide
 
 inductive Expr where
   | prob (pop : Option Var) (children parents : List Var)
